@@ -273,30 +273,58 @@ func cmdCheck(args []string) int {
 				}
 			}
 		}
-		for k, v := range r.Violations {
+		// group candidate counterexamples by (label, site); replay candidates until one reproduces
+		type group struct{ cands []*Violation }
+		var order []string
+		groups := map[string]*group{}
+		for _, v := range r.Violations {
+			k := v.Label + "\x00" + v.Site
+			if groups[k] == nil {
+				groups[k] = &group{}
+				order = append(order, k)
+			}
+			groups[k].cands = append(groups[k].cands, v)
+		}
+		nGroups := 0
+		for _, gk := range order {
+			g := groups[gk]
+			k := nGroups
+			nGroups++
 			dir := filepath.Join(outDir, fmt.Sprintf("%s-cex-%d", spec.Name, k))
 			confirmed := false
 			detail := ""
+			v := g.cands[0]
 			if *noReplay || spec.Replay == "none" {
 				detail = "(native replay disabled)"
 			} else {
-				res := nativeReplay(spec, dir, v.Values, v.Choices, r.Bounds.Params)
-				replayed++
-				if res.Ran && !res.AssumeFailed {
-					for _, f := range res.Failed {
-						if f == v.Label || strings.HasPrefix(v.Label, "implicit:") && strings.HasPrefix(f, "panic:") {
-							confirmed = true
-						}
-						// a caller blocked forever shows natively as its (real-time) deadline failing an assertion
-						if strings.HasPrefix(v.Label, "implicit: deadlock") {
-							confirmed = true
+				for ci, cand := range g.cands {
+					cdir := dir
+					if ci > 0 {
+						cdir = fmt.Sprintf("%s-alt%d", dir, ci)
+					}
+					res := nativeReplay(spec, cdir, cand.Values, cand.Choices, r.Bounds.Params)
+					replayed++
+					if res.Ran && !res.AssumeFailed {
+						for _, f := range res.Failed {
+							if f == cand.Label || strings.HasPrefix(cand.Label, "implicit:") && strings.HasPrefix(f, "panic:") {
+								confirmed = true
+							}
+							// a caller blocked forever shows natively as its (real-time) deadline failing an assertion
+							if strings.HasPrefix(cand.Label, "implicit: deadlock") {
+								confirmed = true
+							}
 						}
 					}
+					detail = fmt.Sprintf("native: ran=%v failed=%v assumeFailed=%v err=%s (%d candidate(s) tried)", res.Ran, res.Failed, res.AssumeFailed, res.Err, ci+1)
+					writeCexInfo(cdir, id, spec, cand)
+					if confirmed {
+						v, dir = cand, cdir
+						break
+					}
 				}
-				detail = fmt.Sprintf("native: ran=%v failed=%v assumeFailed=%v err=%s", res.Ran, res.Failed, res.AssumeFailed, res.Err)
 			}
-			writeCexInfo(dir, id, spec, v)
 			if !confirmed {
+				writeCexInfo(dir, id, spec, v)
 				fmt.Printf("   UNCONFIRMED-CEX property=%s harness=%s label=%q site=%s %s dir=%s\n", id, spec.Name, v.Label, v.Site, detail, dir)
 				exit = max(exit, 3)
 				continue
